@@ -93,8 +93,11 @@ class _ApplicationWithoutMeanOperator(EndomorphicOperator):
 
     def apply(self, x, mode):
         self._check_input(x, mode)
-        mean = self._bcast(self._mean(x))
-        return mean + self._op.apply(x - mean, mode)
+        if mode == self.TIMES:
+            mean = self._bcast(self._mean(x))
+            return mean + self._op(x - mean)
+        y = self._op.adjoint_times(x)
+        return y + self._mean.adjoint_times(self._bcast.adjoint_times(x - y))
 
     def __repr__(self):
         from ..utilities import indent
